@@ -153,7 +153,7 @@ Theorem C02_state_before_send : never_commits_after_send order_send22 /\ never_c
 Proof. split; [exact order_send22_ok|exact order_burst22_ok]. Qed.
 Print Assumptions C02_state_before_send.
 
-From J1939P Require Net21 Net22 Net22Proofs.
+From J1939P Require Net21 Net22 Net22Proofs Net22Bam.
 (* T02.9 — end to end on the FD layer: two model nodes on one bus (Net22.v: frames first, then both job threads; the clock
    advances only when the network is idle).  A calls send_pgn with ANY payload of more than 60 bytes for B's address, with
    ANY window sizes on the two sides: after finitely many steps nothing is queued, no session is left on either side, the
@@ -177,3 +177,28 @@ Theorem C02_closed_loop_delivers : forall prio sa dest dp pf p t0 A0 B0,
              ++ [tp22_eom_status sa dest 0 (len p) (Z.of_nat ns) pv].
 Proof. exact Net22Proofs.closed_loop22_delivers. Qed.
 Print Assumptions C02_closed_loop_delivers.
+
+(* T02.10: the FD broadcast end to end.  In the closed loop of two FD model nodes a BAM transfer of ANY payload of more than
+   60 bytes to the global address, with the originator's segment interval shorter than half the listener's T1, comes to
+   rest: the network's clock advances by one interval between the frames; afterwards nothing is queued, no session is left
+   on either node, the broadcast session number is back in A's pool, B's subscribers have been called exactly once each
+   with exactly p, and A has put on the wire exactly the BAM, the data frames of all segments in order and the
+   end-of-message status; B has sent nothing.  The network model is run against two real FD stacks at every check. *)
+Theorem C02_bam_closed_loop_delivers : forall prio sa dp pf p t0 A0 B0,
+  0 <= prio < 8 -> 0 <= sa < 255 -> 0 <= pf < 240 -> 0 <= dp < 2 -> 60 < len p < 16777216 -> 0 < t0 ->
+  0 < f_bam_iv A0 < tp22_T1 -> 2 * f_bam_iv A0 < tp22_T1 ->
+  f_snd A0 = [] /\ f_rcv A0 = [] /\ f_mpg A0 = [] /\ n_timers (base A0) = [] /\ f_bam A0 = repeat true tp22_pool_bam ->
+  f_snd B0 = [] /\ f_rcv B0 = [] /\ f_mpg B0 = [] /\ n_timers (base B0) = [] ->
+  let pv := dp * 65536 + pf * 256 in
+  let ns := ((length p + 59) / 60)%nat in
+  exists j, let s := Net22.steps22 j (Net22.net22_send (Net22.net22_0 A0 B0 t0) dp pf 255 prio sa p) in
+    Net22.pa s = [] /\ Net22.pb s = [] /\ f_snd (Net22.fa s) = [] /\ f_rcv (Net22.fa s) = [] /\
+    f_snd (Net22.fb s) = [] /\ f_rcv (Net22.fb s) = [] /\
+    f_bam (Net22.fa s) = repeat true tp22_pool_bam /\
+    Net22.evb2 s = deliveries (base B0) 7 pv sa addr_GLOBAL p /\
+    Net22.wab2 s = tp22_bam prio sa 0 pv (len p) (Z.of_nat ns)
+             :: map (fun k => match dt_frame sa addr_GLOBAL 0 (Z.of_nat k + 1) (Net22Proofs.row p k) with
+                              | Some (fr, _) => fr | None => tp22_bam prio sa 0 pv (len p) (Z.of_nat ns) end) (seq 0 ns)
+             ++ [tp22_eom_status sa addr_GLOBAL 0 (len p) (Z.of_nat ns) pv].
+Proof. exact Net22Bam.bam_closed_loop22_delivers. Qed.
+Print Assumptions C02_bam_closed_loop_delivers.
